@@ -18,7 +18,12 @@ def _work(args):
     reg = load_registry(mods)
     eng = Engine(reg)
     c = reg.contracts[qual]
-    res = eng.verify_function(c)
+    try:
+        res = eng.verify_function(c)
+    except Exception as e:  # engine crash: reported as such, never as a verdict
+        import traceback
+        return {"qualname": qual, "file": c.file, "status": "crash", "reason": traceback.format_exc()[-1500:], "sha": "",
+                "paths": 0, "dropped": [], "notes": [], "called": [], "obligations": []}
     out = {"qualname": qual, "file": c.file, "status": res.status, "reason": res.reason, "sha": res.sha,
            "paths": res.paths, "dropped": res.dropped, "notes": res.notes, "called": res.called, "obligations": []}
     if res.status == "ok":
